@@ -73,6 +73,10 @@ def check(ctx: Ctx) -> None:
     # a metadata node displayed inside `with tag:` reaches the tag as the object itself (not as its markup)
     from .c17 import wrapper_table
     wrapper_table(ctx, I, rule="C07.hook", only=META_KINDS)
+    # a component's JavaScript: metadata nodes among its children contribute nothing (and do not make the conversion fail)
+    from ..report import SharedCtx
+    from .c20 import render_table
+    render_table(SharedCtx(ctx, lambda r: "C07.jsx" if r == "C20.meta" else None), I)
 
 
 def thorough(ctx: Ctx) -> None:
